@@ -14,49 +14,14 @@
    TLC checks  SAT = Hits  (the algorithm is right) and  Table = Obstructed  (the code is the
    algorithm) for every segment x every box set.  The case generator is a three-level tree
    (seed -> a -> (a,b)) so that the work spreads over all TLC workers.                       *)
-EXTENDS Integers, Sequences, FiniteSets, TLC, Json, IOUtils
+EXTENDS SegGeom, TLC, Json, IOUtils
 
-CONSTANTS R,        \* segment end points range over (-R..R)^3
-          K         \* lcm(1..2R)
+CONSTANTS R         \* segment end points range over (-R..R)^3;  K (from SegGeom) = lcm(1..2R)
 Coord == -R .. R
-Abs(x) == IF x < 0 THEN -x ELSE x
 
 Input == JsonDeserialize(IOEnv.TABLE_FILE)   \* [sets |-> <<<<box,..>>,..>>, tab |-> ..., hasTab |-> 0/1]
 Sets == Input.sets                           \* sequence of box sets; a box is <<lo3, hi3>>
 HasTab == Input.hasTab = 1
-
-Hits(a, b, box) ==
-    \E k \in 0 .. K : \A ax \in 1 .. 3 :
-        /\ K * box[1][ax] <= K * a[ax] + k * (b[ax] - a[ax])
-        /\ K * a[ax] + k * (b[ax] - a[ax]) <= K * box[2][ax]
-
-SAT(a, b, box) ==
-    LET lo == box[1]  hi == box[2]
-        M == [i \in 1 .. 3 |-> 2 * a[i] + 2 * b[i] - 2 * (lo[i] + hi[i])]   \* 4 * segment midpoint - box centre
-        L == [i \in 1 .. 3 |-> 2 * (a[i] - b[i])]                            \* 4 * half segment
-        X == [i \in 1 .. 3 |-> 2 * Abs(hi[i] - lo[i])]                       \* 4 * half extents
-    IN  ~ \/ Abs(M[1]) > X[1] + Abs(L[1])
-          \/ Abs(M[2]) > X[2] + Abs(L[2])
-          \/ Abs(M[3]) > X[3] + Abs(L[3])
-          \/ Abs(M[2] * L[3] - M[3] * L[2]) > X[2] * Abs(L[3]) + X[3] * Abs(L[2])
-          \/ Abs(M[1] * L[3] - M[3] * L[1]) > X[1] * Abs(L[3]) + X[3] * Abs(L[1])
-          \/ Abs(M[1] * L[2] - M[2] * L[1]) > X[1] * Abs(L[2]) + X[2] * Abs(L[1])
-
-(* An independent exact decision procedure usable beyond the small lattice (coordinates up to 2*10^4):
-   the slab method over rationals n/d (d > 0) compared by cross-multiplication.  TLC checks it
-   against the definition on the lattice (SlabIsExact) and then uses it as the oracle for the
-   random 3-decimal cases of SegBoxTrace.                                                    *)
-Frac(n, d) == IF d > 0 THEN <<n, d>> ELSE <<-n, -d>>
-Leq(p, q) == p[1] * q[2] <= q[1] * p[2]
-Lowers(a, b, box) == {<<0, 1>>}
-    \cup {Frac(box[1][i] - a[i], b[i] - a[i]) : i \in {j \in 1 .. 3 : b[j] > a[j]}}
-    \cup {Frac(box[2][i] - a[i], b[i] - a[i]) : i \in {j \in 1 .. 3 : b[j] < a[j]}}
-Uppers(a, b, box) == {<<1, 1>>}
-    \cup {Frac(box[2][i] - a[i], b[i] - a[i]) : i \in {j \in 1 .. 3 : b[j] > a[j]}}
-    \cup {Frac(box[1][i] - a[i], b[i] - a[i]) : i \in {j \in 1 .. 3 : b[j] < a[j]}}
-HitsSlab(a, b, box) ==
-    /\ \A i \in 1 .. 3 : b[i] = a[i] => (box[1][i] <= a[i] /\ a[i] <= box[2][i])
-    /\ \A l \in Lowers(a, b, box), u \in Uppers(a, b, box) : Leq(l, u)
 
 Obstructed(a, b, set) == \E i \in DOMAIN set : Hits(a, b, set[i])
 
